@@ -25,7 +25,7 @@ def pieces_text(pieces, m):
     out = ""
     for p in pieces:
         if isinstance(p, str): out += p
-        elif p[0] == "int": out += str(regdsl._cv(p[1], m))
+        elif p[0] == "int": out += str(regdsl._cv(p[1], m) if m is not None else p[1].v)
         elif p[0] == "char": out += chr(regdsl._cv(p[1], m))
     return out
 def nows(s): return "".join(c for c in s if not c15.is_ws_int(ord(c)))
